@@ -58,23 +58,32 @@ def concrete(sym: str, i: int, rng) -> requests.Response:
         r._content = json.dumps({'ok': tok}).encode()
         return r
     if j:
-        errs = []
         mk = ' at src/lib_shell/prevalidator.ml:1918' if m else ''
+        proto_ids = ['proto.alpha.michelson_v1.script_rejected', 'proto.018-Proxford.contract.balance_too_low', 'proto.x']
+        node_ids = ['node.prevalidation.oversized', 'prevalidation.x', 'protocol', 'node.z', 'protox.y', 'a.proto.b']
+        perm = lambda: rng.choice(['permanent', 'branch', 'Temporary'])  # noqa: E731
+        errs = []
         if p:
-            errs.append({'kind': 'temporary' if t else rng.choice(['permanent', 'branch']),
-                         'id': rng.choice(['proto.alpha.michelson_v1.script_rejected',
-                                           'proto.018-Proxford.contract.balance_too_low', 'proto.x']),
-                         'msg': tok + mk})
-            if rng.random() < 0.5:
-                errs.insert(0, {'kind': 'temporary', 'id': 'node.prevalidation.x', 'msg': tok} if t else
-                            {'kind': 'permanent', 'id': 'node.y', 'msg': tok})
+            proto_temp = t and rng.random() < 0.5
+            errs.append({'kind': 'temporary' if proto_temp else perm(), 'id': rng.choice(proto_ids)})
+            if t and not proto_temp:
+                errs.append({'kind': 'temporary', 'id': rng.choice(node_ids)})
+            elif rng.random() < 0.6:
+                errs.append({'kind': 'temporary' if t else perm(), 'id': rng.choice(node_ids)})
         else:
-            if t:
-                errs.append({'kind': 'temporary', 'id': rng.choice(['node.prevalidation.oversized', 'prevalidation.x', 'protocol']), 'msg': tok + mk})
-                if rng.random() < 0.5:
-                    errs.insert(rng.randrange(2), {'kind': 'permanent', 'id': 'node.z', 'msg': tok})
-            else:
-                errs.append({'kind': rng.choice(['permanent', 'branch', 'Temporary']), 'id': rng.choice(['node.z', 'protox.y', 'a.proto.b']), 'msg': tok + mk})
+            errs.append({'kind': 'temporary' if t else perm(), 'id': rng.choice(node_ids)})
+            if rng.random() < 0.6:
+                errs.append({'kind': perm(), 'id': rng.choice(node_ids)})
+        if rng.random() < 0.3:
+            errs.append('stray string element')
+        rng.shuffle(errs)
+        if not isinstance(errs[-1], dict):
+            errs.reverse()
+        for e in errs:
+            if isinstance(e, dict):
+                e['msg'] = tok
+        if m:
+            rng.choice([e for e in errs if isinstance(e, dict)])['msg'] = tok + mk
         r.headers['content-type'] = 'application/json'
         r._content = json.dumps(errs).encode()
     else:
@@ -133,12 +142,13 @@ def run_impl(seq, rng):
     else:
         out = ('Other', f'{type(val).__name__}: {val}'[:200])
     dq = [int(d * 4) if float(d * 4).is_integer() else -1 for d in sleeps]
-    return len(calls), dq, out, [float(x) for x in sleeps]
+    wire = [(r.status_code, r.headers.get('content-type'), r.text) for r in resps[:len(calls)]]
+    return len(calls), dq, out, [float(x) for x in sleeps], wire
 
 
 def spec_oracle(seq, obs):
     """(B) the property itself, checked on the implementation's observation. Returns a reason or None."""
-    nreq, dq, out, sleeps = obs
+    nreq, dq, out, sleeps, _wire = obs
     if nreq > 6 or nreq < 1:
         return f'{nreq} requests were made'
     # resend iff transient
@@ -167,7 +177,7 @@ def coq_resp(sym):
 
 
 def coq_obs(obs):
-    nreq, dq, out, _ = obs
+    nreq, dq, out, _, _wire = obs
     o = {'Returned': lambda: f'(Returned {cnat(out[1])})', 'Unauthorized': lambda: 'Unauthorized',
          'NotFound': lambda: 'NotFound', 'FromResponse': lambda: f'(FromResponse {cnat(out[1])})',
          'Other': lambda: '(FromResponse 4999%nat)'}[out[0]]()
@@ -223,13 +233,13 @@ def run(ctx: lib.Ctx) -> None:
         if why and reported < 3:
             reported += 1
             ctx.violation(f'retry policy violated: {why}',
-                          {'responses': seq, 'observed': {'requests': obs[0], 'sleeps': obs[3], 'outcome': list(obs[2])},
+                          {'responses': seq, 'wire': obs[4], 'observed': {'requests': obs[0], 'sleeps': obs[3], 'outcome': list(obs[2])},
                            'repro': 'harness/c26.py run_impl(responses) against pytezos.rpc.node.RpcNode.request with stubbed requests/sleep'})
     if reported == 0 and (bad or not const_ok):
         i = bad[0] if bad else None
         rep = {'correspondence': 'C26/RpcNode.request vs Client.Retry.run_list', 'constants': list(consts)}
         if i is not None:
             seq, obs = meta[i]
-            rep.update({'responses': seq, 'observed': {'requests': obs[0], 'sleeps': obs[3], 'outcome': list(obs[2])},
+            rep.update({'responses': seq, 'wire': obs[4], 'observed': {'requests': obs[0], 'sleeps': obs[3], 'outcome': list(obs[2])},
                         'model': ctx.coq_eval(IMPORTS, f'obs (run_list {cases[i][0]})'), 'disagreements': len(bad)})
         ctx.violation('implementation no longer corresponds to the model the theorems are about', rep, found=False)
